@@ -20,7 +20,7 @@
     `Out2.spin`; the states are then not compared for polls (the code has already set `state = Done`), and are equal
     for drops.
   `data.is_none()` is answered `false` (safe callers pass `Some`), `needs_drop` and `size_of::<T>() > size_of::<*mut T>()`
-  are parameters no theorem constrains.  `ReceiveStream::poll_next` is not in `Kanal.Fine`; `pollNext` models it by hand.
+  are parameters no theorem constrains.
 -/
 import Kanal.Bridge
 
@@ -760,14 +760,27 @@ theorem dropRecvFut_bridge (e : Env) (s : State) (g : Sig) (hg : s.sigs[e.x.me]?
 
 /-! ### 5b. streams -/
 
-/-- `ReceiveStream::poll_next`, written by hand (it is not among the functions translated into `Kanal.Fine`; it takes no
-    lock itself): a terminated stream answers `Ready(None)`; otherwise it polls its future, and an error terminates the
-    stream (`self.terminated = true`, the effect `Eff.setTerminated`) and is reported as `Ready(None)`. -/
+/-- what `ReceiveStream::poll_next` does with the result of the future's poll (the continuation in `Fine.pollNext`) -/
+def nextK : Res → Act := fun r =>
+  match r with
+  | .pending => .ret .pending
+  | .val d => .ret (.val d)
+  | .err _ => .eff .setTerminated (.ret .streamEnd)
+  | o => .ret o
+
+/-- the wrapper of `poll_next` around the outcome of the future's poll: an error terminates the stream
+    (`self.terminated = true`) and is reported as `Ready(None)`; everything else is passed on (a suspended tree keeps the
+    wrapper in its continuation — `ReceiveFuture::poll` never suspends, this case only makes `pollNext_unfold` unconditional) -/
+def wrapNext (me : SigId) : State × Out2 → State × Out2
+  | (s', .ret (.err _)) => (modSig s' me fun g => { g with streamEnded := true }, .ret .streamEnd)
+  | (s', .blocked k) => (s', .blocked fun b => (k b).bind nextK)
+  | r => r
+
+/-- `ReceiveStream::poll_next` read directly: a terminated stream answers `Ready(None)`; otherwise it polls its future and
+    wraps the outcome.  `pollNext_eq` below shows that this is `run2` of the tree `Fine.pollNext`. -/
 def pollNext (e : Env) (s : State) : State × Out2 :=
   if e.x.terminated then (s, .ret .streamEnd)
-  else match run2 e (Fine.pollRecv e.x) false s with
-    | (s', .ret (.err _)) => (modSig s' e.x.me fun g => { g with streamEnded := true }, .ret .streamEnd)
-    | r => r
+  else wrapNext e.x.me (run2 e (Fine.pollRecv e.x) false s)
 
 /-- what `Spec.step (.pollRecv f w)` does for a stream whose future is (after re-arming) in state `Zero`; `G` is the
     waiter record it writes back -/
@@ -854,16 +867,8 @@ theorem takeFrom_length (s : State) (p : SigId) : (s.takeFrom p).sigs.length = s
   · rfl
   · rw [finalize_length]; simp [State.setSig]
 
-/-- the wrapper of `poll_next` around the future's poll -/
-def wrapNext (me : SigId) : State × Out2 → State × Out2
-  | (s', .ret (.err _)) => (modSig s' me fun g => { g with streamEnded := true }, .ret .streamEnd)
-  | r => r
-
-theorem pollNext_eq (e : Env) (s : State) :
-    pollNext e s = if e.x.terminated then (s, .ret .streamEnd) else wrapNext e.x.me (run2 e (Fine.pollRecv e.x) false s) := by
-  unfold pollNext wrapNext; split
-  · rfl
-  · split <;> simp_all
+theorem pollNext_unfold (e : Env) (s : State) :
+    pollNext e s = if e.x.terminated then (s, .ret .streamEnd) else wrapNext e.x.me (run2 e (Fine.pollRecv e.x) false s) := rfl
 
 /-- the round of `ReceiveFuture::poll` from state `Zero`, on a state whose polled waiter is `G`, against `specZeroStream` -/
 theorem zeroRound_stream (e : Env) (s : State) (G : Sig) (again : Act)
@@ -948,8 +953,8 @@ theorem pollNext_bridge (e : Env) (s : State) (g : Sig) (hg : s.sigs[e.x.me]? = 
   by_cases hse1 : g.streamEnded = true
   · refine ⟨s, .streamEnd, ?_, Or.inr ⟨by simp, ?_, ?_⟩⟩
     · simp [step, hg, ha, hk, hr, hgs, hse1]
-    · simp [pollNext_eq, hte, hse1]
-    · simp [pollNext_eq, hte, hse1]
+    · simp [pollNext_unfold, hte, hse1]
+    · simp [pollNext_unfold, hte, hse1]
   · have hse : g.streamEnded = false := by simpa using hse1
     clear hse1
     have hterm : e.x.terminated = false := hte.trans hse
@@ -960,14 +965,14 @@ theorem pollNext_bridge (e : Env) (s : State) (g : Sig) (hg : s.sigs[e.x.me]? = 
         step_pollRecv_stream_zero s _ _ g hg ha hk hr hgs hse hf, Or.inr ⟨specZeroStream_ne_spin _ _ _ _, ?_⟩⟩
       have hz := zeroRound_stream e s g (Fine.pollRecvRound e.x .zero .diverge) hlt hnl
       rw [setSig_self hg] at hz
-      simp only [pollNext_eq, hterm, Fine.pollRecv, hst, hf, Bool.false_eq_true, if_false]
+      simp only [pollNext_unfold, hterm, Fine.pollRecv, hst, hf, Bool.false_eq_true, if_false]
       exact ⟨hz.1, core_forget_of_core hz.2 _⟩
     · -- waiting
       have hslot := hslot hf
       rcases g with ⟨role, kind, gopt, st, slot, orig, waker, fut, isStream, streamEnded, alive, claimed⟩
       simp only at ha hk hr hst hgs hse hf hslot
       subst ha hr hk hgs hse hf
-      simp only [step, hg, rearm, pollNext_eq, hterm, Fine.pollRecv, Fine.pollRecvRound, hst, run2_askP _ _ _ hg, pollAns,
+      simp only [step, hg, rearm, pollNext_unfold, hterm, Fine.pollRecv, Fine.pollRecvRound, hst, run2_askP _ _ _ hg, pollAns,
         Variant.good, Bool.false_eq_true, if_false]
       cases st
       · -- pending
@@ -1002,7 +1007,7 @@ theorem pollNext_bridge (e : Env) (s : State) (g : Sig) (hg : s.sigs[e.x.me]? = 
         (specZeroStream s { g with fut := .zero, st := .pending, slot := none, waker := none } e.x.me e.w).2,
         step_pollRecv_stream_done s _ _ g hg ha hk hr hgs hse hf, Or.inr ⟨specZeroStream_ne_spin _ _ _ _, ?_⟩⟩
       have hz := zeroRound_stream e s { g with fut := .zero, st := .pending, slot := none, waker := none } .diverge hlt hnl
-      simp only [pollNext_eq, hterm, Fine.pollRecv, hst, hf, Bool.false_eq_true, if_false]
+      simp only [pollNext_unfold, hterm, Fine.pollRecv, hst, hf, Bool.false_eq_true, if_false]
       have : run2 e (Fine.pollRecvRound e.x .done (Fine.pollRecvRound e.x .zero .diverge)) false s =
           run2 e (Fine.pollRecvRound e.x .zero .diverge) false
             (s.setSig e.x.me { g with fut := .zero, st := .pending, slot := none, waker := none }) := by
@@ -1013,6 +1018,137 @@ theorem pollNext_bridge (e : Env) (s : State) (g : Sig) (hg : s.sigs[e.x.me]? = 
       rw [this]
       exact ⟨hz.1, core_forget_of_core hz.2 _⟩
 
+
+/-! ### 5c. `poll_next` as a tree -/
+
+/-- `run2` of a sequential composition, for a second part whose run does not depend on whether the lock is held
+    (it asks no popped waiter for its value): run the first part; if it returns, run the second on the state it left;
+    if it suspends, the second part stays in the continuation. -/
+theorem run2_bind (e : Env) (f : Res → Act) (hf : ∀ r l l' s, run2 e (f r) l s = run2 e (f r) l' s)
+    (a : Act) (l : Bool) (s : State) :
+    run2 e (a.bind f) l s =
+      match run2 e a l s with
+      | (s', .ret r) => run2 e (f r) false s'
+      | (s', .blocked k) => (s', .blocked fun b => (k b).bind f)
+      | r => r := by
+  induction a generalizing l s with
+  | ret r => simp [Act.bind]; exact hf _ _ _ _
+  | diverge => simp [Act.bind]
+  | lock k ih => simp only [Act.bind, run2_lock]; exact ih _ _ _
+  | tryLock k ih => simp only [Act.bind, run2_tryLock]; exact ih _ _ _
+  | unlock c k ih => simp only [Act.bind, run2_unlock]; exact ih _ _
+  | eff ef k ih =>
+    simp only [Act.bind, run2]
+    split
+    · exact ih _ _
+    · rfl
+  | askB q k ih =>
+    simp only [Act.bind, run2]
+    split
+    · exact ih _ _ _
+    · rfl
+    · rfl
+    · rfl
+  | askM q k ih =>
+    cases q <;> simp only [Act.bind, run2_sigRecv, run2_readLocal, run2_readRet, run2_readSigPtr] <;> exact ih _ _ _
+  | askP k ih =>
+    simp only [Act.bind, run2]
+    split
+    · exact ih _ _ _
+    · rfl
+
+
+theorem pollNext_tree (x : Ctx) :
+    Fine.pollNext x = if x.terminated then .ret .streamEnd else (Fine.pollRecv x).bind nextK := rfl
+
+theorem nextK_flag (e : Env) (r : Res) (l l' : Bool) (s : State) : run2 e (nextK r) l s = run2 e (nextK r) l' s := by
+  cases r <;> simp [nextK]
+
+/-- The tree `Fine.pollNext` (the translation of `ReceiveStream::poll_next`), run by `run2`, is exactly `pollNext`:
+    `Eff.setTerminated` acts as `streamEnded := true` on waiter `x.me`. -/
+theorem pollNext_eq (e : Env) (s : State) : run2 e (Fine.pollNext e.x) false s = pollNext e s := by
+  rw [pollNext_tree, pollNext_unfold]
+  split
+  · simp
+  · rw [run2_bind e nextK (nextK_flag e)]
+    rcases run2 e (Fine.pollRecv e.x) false s with ⟨s', o⟩
+    cases o with
+    | ret r => cases r <;> simp [wrapNext, nextK]
+    | blocked k => simp [wrapNext]
+    | spin => simp [wrapNext]
+    | stuck => simp [wrapNext]
+    | diverge => simp [wrapNext]
+
+/-- `pollNext_bridge` for the tree: `ReceiveStream::poll_next` as translated from the source. -/
+theorem pollNext_tree_bridge (e : Env) (s : State) (g : Sig) (hg : s.sigs[e.x.me]? = some g)
+    (ha : g.alive = true) (hk : g.kind = .async) (hr : g.role = .recv)
+    (hst : e.x.st = g.fut) (his : e.x.isStream = true) (hgs : g.isStream = true) (hte : e.x.terminated = g.streamEnded)
+    (hnl : g.fut ≠ .waiting → e.x.me ∉ s.chan.waitList)
+    (hslot : g.fut = .waiting → g.st = .ok → g.slot.isSome = true) :
+    ∃ s' r, step .good s (.pollRecv e.x.me e.w) = some (s', r) ∧
+      ((r = .spin ∧ (run2 e (Fine.pollNext e.x) false s).2 = .spin) ∨
+       (r ≠ .spin ∧ (run2 e (Fine.pollNext e.x) false s).2 = .ret r ∧
+          core (forget (run2 e (Fine.pollNext e.x) false s).1 e.x.me) = core (forget s' e.x.me))) := by
+  rw [pollNext_eq]
+  exact pollNext_bridge e s g hg ha hk hr hst his hgs hte hnl hslot
+
+
+/-! ### 4b. a timed waiter whose deadline passes although its signal is already final -/
+
+theorem cancel_not_mem {c : Chan} {r : Role} {i : SigId} (h : i ∉ c.waitList) : c.cancel r i = (c, false) := by
+  unfold Chan.cancel; simp [h]
+
+/-- `wait_timeout` of a timed send gives up (`false`) although the signal is already final (the deadline passed first).
+    `is_terminated` is answered from the state.  Terminated: the call returns what `.complete` returns, same `core`.
+    Otherwise (`ok`) the cancel section finds the waiter not listed — `hnl`, a fact about reachable states: a listed waiter
+    is pending (`Struct.listed`, `Listed.pending`) — so the state is unchanged and the tree suspends at `wait` with
+    `timedSendK2 opt`, where `complete_send_bridge2` applies. -/
+theorem timed_final_send_bridge (e : Env) (opt : Bool) (s : State) (g : Sig) (hg : s.sigs[e.x.me]? = some g)
+    (ha : g.alive = true) (hk : g.kind = .timed) (hst : g.st ≠ .pending) (hr : g.role = .send)
+    (hnl : g.st = .ok → e.x.me ∉ s.chan.waitList) :
+    (g.st = .ok ∧ (resume e (timedSendK opt e.x) false s).2 = .blocked (timedSendK2 opt) ∧
+        core (resume e (timedSendK opt e.x) false s).1 = core s) ∨
+    (g.st = .term ∧ ∃ s' r, step .good s (.complete e.x.me) = some (s', r) ∧
+        (resume e (timedSendK opt e.x) false s).2 = .ret r ∧
+        core (resume e (timedSendK opt e.x) false s).1 = core s') := by
+  rcases g with ⟨role, kind, gopt, st, slot, orig, waker, fut, isStream, streamEnded, alive, claimed⟩
+  simp only at ha hk hst hr hnl ⊢
+  subst ha hr hk
+  cases st
+  · exact absurd rfl hst
+  · left
+    have hc := cancel_not_mem (r := .send) (hnl rfl)
+    simp [resume, timedSendK, run2_isTerminated _ _ _ hg, hc]
+    rfl
+  · right
+    simp only [step, hg, Variant.good]
+    cases slot <;> simp [resume, timedSendK, retire, modSig, hg, run2_isTerminated _ _ _ hg] <;>
+      first
+      | exact ⟨_, _, ⟨rfl, rfl⟩, rfl, rfl⟩
+      | exact ⟨_, _, ⟨rfl, rfl⟩, rfl, (core_failBack _ _ _).symm⟩
+
+/-- the same for `recv_timeout` -/
+theorem timed_final_recv_bridge (e : Env) (s : State) (g : Sig) (hg : s.sigs[e.x.me]? = some g)
+    (ha : g.alive = true) (hk : g.kind = .timed) (hst : g.st ≠ .pending) (hr : g.role = .recv)
+    (hnl : g.st = .ok → e.x.me ∉ s.chan.waitList) :
+    (g.st = .ok ∧ (resume e (timedRecvK e.x) false s).2 = .blocked timedRecvK2 ∧
+        core (resume e (timedRecvK e.x) false s).1 = core s) ∨
+    (g.st = .term ∧ ∃ s' r, step .good s (.complete e.x.me) = some (s', r) ∧
+        (resume e (timedRecvK e.x) false s).2 = .ret r ∧
+        core (resume e (timedRecvK e.x) false s).1 = core s') := by
+  rcases g with ⟨role, kind, gopt, st, slot, orig, waker, fut, isStream, streamEnded, alive, claimed⟩
+  simp only at ha hk hst hr hnl ⊢
+  subst ha hr hk
+  cases st
+  · exact absurd rfl hst
+  · left
+    have hc := cancel_not_mem (r := .recv) (hnl rfl)
+    simp [resume, timedRecvK, run2_isTerminated _ _ _ hg, hc]
+    rfl
+  · right
+    simp only [step, hg]
+    cases slot <;> simp [resume, timedRecvK, retire, modSig, hg, run2_isTerminated _ _ _ hg] <;>
+      exact ⟨_, _, ⟨rfl, rfl⟩, rfl, rfl⟩
 
 /-! ### 7. non-vacuity: the hypotheses hold on concrete reachable states, and the trees compute what one expects -/
 
@@ -1112,6 +1248,21 @@ example : core (pollNext { x := { me := 0, st := .zero, isStream := true }, w :=
 example : (pollNext { x := { me := 0, st := .done, isStream := true, terminated := true }, w := 6 } (after c10 [.pollRecv 0 6])).2.res?
     = some .streamEnd := by decide
 
+-- 5c. the tree of `poll_next`
+example := pollNext_tree_bridge { x := { me := 1, st := .done, isStream := true }, w := 6 } c9 _ rfl
+  (by decide) (by decide) (by decide) (by decide) (by decide) (by decide) (by decide) (by decide) (by decide)
+example : (run2 { x := { me := 0, st := .zero, isStream := true }, w := 6 }
+    (Fine.pollNext { me := 0, st := .zero, isStream := true }) false c10).2.res? = some .streamEnd := by decide
+example : core (run2 { x := { me := 0, st := .zero, isStream := true }, w := 6 }
+    (Fine.pollNext { me := 0, st := .zero, isStream := true }) false c10).1 = core (after c10 [.pollRecv 0 6]) := by decide
+
+-- 4b. the deadline of a timed send passes although a `try_recv` has already taken the value and stored `ok`
+def c11 : State := after c3 [.tryRecv false, .finalize 0]
+example := timed_final_send_bridge { x := { me := 0 }, kind := .timed } false c11 _ rfl (by decide) (by decide) (by decide) (by decide) (by decide)
+example : (resume { x := { me := 0 }, kind := .timed } (timedSendK false { me := 0 }) false c11).2.isBlocked = true := by decide
+example : (resume { x := { me := 0 }, kind := .timed } (timedSendK2 false) true c11).2.res? = some .unit := by decide
+example : core (resume { x := { me := 0 }, kind := .timed } (timedSendK2 false) true c11).1 = core (after c11 [.complete 0]) := by decide
+
 end Ex2
 
 end Bridge
@@ -1128,5 +1279,10 @@ end Kanal
 #print axioms Kanal.Bridge.pollSend_bridge
 #print axioms Kanal.Bridge.pollRecv_bridge
 #print axioms Kanal.Bridge.pollNext_bridge
+#print axioms Kanal.Bridge.run2_bind
+#print axioms Kanal.Bridge.pollNext_eq
+#print axioms Kanal.Bridge.pollNext_tree_bridge
+#print axioms Kanal.Bridge.timed_final_send_bridge
+#print axioms Kanal.Bridge.timed_final_recv_bridge
 #print axioms Kanal.Bridge.dropSendFut_bridge
 #print axioms Kanal.Bridge.dropRecvFut_bridge
